@@ -31,8 +31,9 @@ import seqcheck
 
 SPEC = {
     "prop": "C16",
-    "lean_targets": ["InfernoVerif.Props.C16"],
-    "prop_files": ["InfernoVerif/Props/C16.lean"],
+    "lean_targets": ["InfernoVerif.Props.C16", "InfernoVerif.Props.C16GlueProg"],
+    "translate": ["HookProg"],
+    "prop_files": ["InfernoVerif/Props/C16.lean", "InfernoVerif/Props/C16GlueProg.lean"],
     "lemma_files": ["InfernoVerif/Lemmas/Hooks.lean", "InfernoVerif/Lemmas/HooksReal.lean"],
     "model_files": ["InfernoVerif/Model/Hooks.lean"],
     "driver": "drivers/C16.lean",
